@@ -5,6 +5,7 @@ import (
 	"verif/mc/harness"
 	"verif/mc/props/c01"
 	"verif/mc/props/c02"
+	"verif/mc/props/c03"
 	"verif/mc/props/c04"
 	"verif/mc/props/c05"
 	"verif/mc/props/c11"
@@ -16,6 +17,7 @@ func main() {
 	harness.Main(map[string]*harness.Prop{
 		"C01": c01.Prop,
 		"C02": c02.Prop,
+		"C03": c03.Prop,
 		"C04": c04.Prop,
 		"C05": c05.Prop,
 		"C11": c11.Prop,
